@@ -130,7 +130,15 @@ struct Config {
     matrix: String,
     dict: Option<JapaneseDictionary>,
     load_error: Option<String>,
+    /// text that belongs to a "segments" configuration (directed code SEGMENTS)
+    scenario_text: Option<String>,
 }
+
+/// directed code of the "segments" stream: the text is a sequence of runs of distinct characters, some of them around or
+/// above CreatedWords::MAX_VALUE, and every Regex provider matches a contiguous range of those runs -- so candidates that
+/// start at different positions end at the same boundary, several long candidates with different ends start at one
+/// position, and whatever a provider or the lattice builder carries over from an earlier position becomes visible
+const SEGMENTS: u32 = 100;
 
 fn bits(cs: &[usize]) -> u32 {
     cs.iter().fold(0, |a, c| a | CLASSES[*c].1)
@@ -315,7 +323,11 @@ fn gen_config(seed: u64, work: &PathBuf, directed: u32) -> Config {
         infos.clear();
         unks.clear();
         for k in [0usize, 1, 2, 3, 4, 5, 6, 7, 8, 9, 10] {
-            infos.push(ClassInfo { class: k, invoke: k == 4 || k == 5, group: true, length: if k == 2 { 3 } else { 0 } });
+            if directed == SEGMENTS {
+                infos.push(ClassInfo { class: k, invoke: rng.chance(2, 3), group: rng.chance(3, 4), length: if rng.chance(1, 12) { 70 } else { rng.below(4) as u32 } });
+            } else {
+                infos.push(ClassInfo { class: k, invoke: k == 4 || k == 5, group: true, length: if k == 2 { 3 } else { 0 } });
+            }
             unks.push((k, OovDef { left: (k % 4) as i64, right: (k % 4) as i64, cost: 3000 + k as i64, pos: k % 3 }));
         }
     }
@@ -348,7 +360,56 @@ fn gen_config(seed: u64, work: &PathBuf, directed: u32) -> Config {
     }
     // ---- providers
     let mut provs = vec![];
-    if directed != 0 {
+    let mut scenario_text = None;
+    if directed == SEGMENTS {
+        let pool: Vec<char> = vec!['a', 'b', 'c', 'e', 'α', 'я', '1', '2', '京', '東', 'に', 'ア', '!', '👍'];
+        let nseg = 2 + rng.below(3) as usize;
+        let mut segs: Vec<(char, usize)> = vec![];
+        let long_at = rng.below(nseg as u64) as usize;
+        for i in 0..nseg {
+            let mut c = *rng.pick(&pool);
+            while segs.iter().any(|s| s.0 == c) {
+                c = *rng.pick(&pool);
+            }
+            let n = if i == long_at || rng.chance(1, 5) { 58 + rng.below(30) as usize } else { 1 + rng.below(3) as usize };
+            segs.push((c, n));
+        }
+        let mut text = String::new();
+        for (c, n) in &segs {
+            for _ in 0..*n {
+                text.push(*c);
+            }
+        }
+        if rng.chance(2, 3) {
+            provs.push(Prov::Mecab);
+        }
+        let nre = 3 + rng.below(3) as usize;
+        let mut ranges: Vec<(usize, usize)> = vec![];
+        for _ in 0..nre {
+            let i = rng.below(nseg as u64) as usize;
+            // half of the time end where an earlier pattern ends
+            let j = if !ranges.is_empty() && rng.chance(2, 3) { usize::max(i, rng.pick(&ranges).1) } else { i + rng.below((nseg - i) as u64) as usize };
+            ranges.push((i, j));
+            provs.push(Prov::Regex {
+                def: gen_def(&mut rng),
+                pat: Pattern { alts: vec![(i..=j).map(|k| Atom { set: vec![segs[k].0], min: 1, max: usize::MAX }).collect()] },
+                maxlen: Some(if rng.chance(1, 6) { 100 } else { 400 }),
+                strict: match rng.below(4) {
+                    0 => Some(true),
+                    1 => None,
+                    _ => Some(false),
+                },
+                debug: false,
+            });
+            if rng.chance(1, 4) {
+                provs.push(Prov::Mecab);
+            }
+        }
+        if rng.chance(3, 4) {
+            provs.push(Prov::Simple(gen_def(&mut rng)));
+        }
+        scenario_text = Some(text);
+    } else if directed != 0 {
         provs.push(Prov::Mecab);
         provs.push(Prov::Regex {
             def: OovDef { left: 2, right: 2, cost: -100, pos: 4 },
@@ -431,7 +492,7 @@ fn gen_config(seed: u64, work: &PathBuf, directed: u32) -> Config {
         }
     }
     let plugins = Value::Array(pj);
-    let mut cfg = Config { seed, chars, infos, unks, provs, words, char_def, unk_def, plugins, lex, matrix, dict: None, load_error: None };
+    let mut cfg = Config { seed, chars, infos, unks, provs, words, char_def, unk_def, plugins, lex, matrix, dict: None, load_error: None, scenario_text };
     // ---- load through the public API
     // one directory per process: quick and thorough runs may overlap
     let dir = work.join(format!("c13res-{}", std::process::id()));
@@ -458,6 +519,9 @@ fn gen_config(seed: u64, work: &PathBuf, directed: u32) -> Config {
 }
 
 fn gen_text(rng: &mut Rng, cfg: &Config, directed: u32) -> String {
+    if directed == SEGMENTS {
+        return cfg.scenario_text.clone().unwrap_or_default();
+    }
     match directed {
         1 => return "👍\u{1F3FB}京".to_string(),
         2 => return "e\u{301}京".to_string(),
@@ -821,6 +885,35 @@ fn run_case(cfg: &Config, text: &str, rng: &mut Rng, verbose: bool) -> CaseOut {
             if per.iter().flatten().any(|n| !n.dict) {
                 tags.push("lattice_has_oov_nodes".into());
             }
+            // independent oracle for the Regex providers: at a processed position whose character is not gated, a match
+            // that starts there (and is not inside a class run in strict mode) must be present in the lattice as a node of
+            // exactly that span -- its own candidate or an equal-span word created before it AT THAT POSITION
+            for p in 0..len {
+                if per[p].is_empty() || cats[p] & (3 << 30) != 0 {
+                    continue;
+                }
+                for (k, pv) in cfg.provs.iter().enumerate() {
+                    if let Prov::Regex { pat, maxlen, strict, .. } = pv {
+                        if strict.unwrap_or(true) && p > 0 && spec[p] + 1 == spec[p - 1] {
+                            continue;
+                        }
+                        let end = usize::min(len, p.saturating_add(maxlen.unwrap_or(32)));
+                        if let Some((0, e)) = find(pat, &chars[p..end]) {
+                            if e > 0 && !per[p].iter().any(|n| n.end == p + e) {
+                                if e >= 64 {
+                                    tags.push("regex_long_match_checked".into());
+                                }
+                                fails.push(format!(
+                                    "position {}: Regex provider {} matches {} characters but the lattice has no node {}..{} (nodes starting there end at {:?})",
+                                    p, k, e, p, p + e, per[p].iter().map(|n| n.end).collect::<Vec<_>>()
+                                ));
+                            } else if e >= 64 {
+                                tags.push("regex_long_match_checked".into());
+                            }
+                        }
+                    }
+                }
+            }
             // OOV morphemes of the best path: is_oov, dictionary -1, the configured part of speech, the text as all forms
             let mut ml = MorphemeList::empty(dict);
             if ml.collect_results(&mut tok).is_ok() {
@@ -888,7 +981,7 @@ fn emit(sink: &mut Sink, mut desc: Value, extra: Value, out: CaseOut) {
 pub fn run(args: &Args) {
     let mut sink = Sink::new("C13", &args.out, &["Model.Oov"], args.seed, &args.tier);
     sink.shard_size = 40;
-    sink.rule("generated char.def (24 code points incl. combining marks, skin-tone modifier, VS16, ZWJ, 4-byte emoji; natural or random class sets with several classes per character, class ALL, NOOOVBOW, NOOOVBOW2; classes without definition) x unk.def (0..3 definitions per class, invoke/group/length 0..80) x 1..3 providers in random order (MeCab, Simple, Regex with strict/relaxed boundaries, max length, debug, patterns with backtracking / alternation / empty match) x small random lexicon x texts (dictionary words, class runs, base+marks, lone marks, runs > 64); each case observes the built InputBuffer, every provider through the trait at all (or sampled) offsets with several CreatedWords, and the lattice of a real tokenization; non-trivial = the text has a character with several classes or some provider call produced a candidate; distinct by generated Coq term");
+    sink.rule("generated char.def (24 code points incl. combining marks, skin-tone modifier, VS16, ZWJ, 4-byte emoji; natural or random class sets with several classes per character, class ALL, NOOOVBOW, NOOOVBOW2; classes without definition) x unk.def (0..3 definitions per class, invoke/group/length 0..80) x 1..3 providers in random order (MeCab, Simple, Regex with strict/relaxed boundaries, max length, debug, patterns with backtracking / alternation / empty match) x small random lexicon x texts (dictionary words, class runs, base+marks, lone marks, runs > 64); plus a 'segments' stream (every 5th configuration): the text is 2-4 runs of distinct characters, one or more of 58-88 characters, and 3-5 Regex providers (maxLength 100/400, strict/relaxed) each match a contiguous range of those runs, often ending where another pattern ends, mixed with MeCab/Simple -- so long candidates (>= 64, CreatedWords answers Maybe) with different ends start at one position and candidates from different positions share an end; each case observes the built InputBuffer, every provider through the trait at all (or sampled) offsets with several CreatedWords, and the lattice of a real tokenization; non-trivial = the text has a character with several classes or some provider call produced a candidate; distinct by generated Coq term");
     if let Some(p) = &args.replay {
         let v: Value = serde_json::from_str(&std::fs::read_to_string(p).unwrap()).unwrap();
         let case = &v["case"];
@@ -943,7 +1036,12 @@ pub fn run(args: &Args) {
     }
     let nconfigs = args.n(250, 3000);
     let per = 4;
-    for _ in 0..nconfigs {
+    for ci in 0..nconfigs {
+        // interleaved (these cases are the expensive ones to evaluate; spread them over the shards):
+        // runs of distinct characters (some around / above 64) x Regex providers over contiguous ranges of those runs
+        if ci % 5 == 0 {
+            segments_case(&mut sink, &mut rng, args);
+        }
         let cseed = rng.next();
         let cfg = gen_config(cseed, &args.work, 0);
         if let Some(e) = &cfg.load_error {
@@ -963,6 +1061,23 @@ pub fn run(args: &Args) {
     normalized_forms_stream(&mut sink, &mut rng, args);
     cleanup(args);
     sink.finish();
+}
+
+/// one case of the "segments" stream (see SEGMENTS)
+fn segments_case(sink: &mut Sink, rng: &mut Rng, args: &Args) {
+    let cseed = rng.next();
+    let cfg = gen_config(cseed, &args.work, SEGMENTS);
+    if let Some(e) = &cfg.load_error {
+        let id = sink.case_rust_only(json!({"kind": "c13", "config_seed": cseed, "directed": SEGMENTS, "oovProviderPlugin": cfg.plugins, "text": ""}), false);
+        sink.fail(id, &format!("well-formed configuration rejected: {}", e), "");
+        return;
+    }
+    let text = gen_text(rng, &cfg, SEGMENTS);
+    let cs = rng.next();
+    let mut cr = Rng::new(cs);
+    let out = run_case(&cfg, &text, &mut cr, false);
+    sink.tag("segments_stream");
+    emit(sink, out.desc.clone(), json!({"directed": SEGMENTS, "call_seed": cs}), out);
 }
 
 /// Implementation-only stream: with the default input-text plugin the analysed text differs from the original one
